@@ -70,9 +70,15 @@ OBLIGATIONS = [
     dict(COMMON, id='IO-FUNNEL', entry='vp_io_funnel', instances=funnel_instances),
     dict(COMMON, id='CHK-CMP', entry='vp_chk_cmp', instances=plain_instances),
     dict(COMMON, id='CHK-NOWRITE', entry='vp_chk_nowrite', instances=nowrite_instances),
+    dict(COMMON, id='ST-RESET', entry='vp_st_reset', instances=lambda tier: plain_instances(tier)[:1],
+         assumptions=['arbitrary valuation of the per-file fields of cpd that uncrustify_end() is responsible for; a chunk list of 0..2 chunks']),
     dict(COMMON, id='BK-STEP', entry='vp_bk_step', instances=lambda tier: plain_instances(tier)[:1] if tier == 'quick' else [dict(i, timeout=3400) for i in plain_instances(tier)[:5]]),
 ]
 PROPERTIES = {
+    'C11': dict(obligations=['ST-RESET'],
+                not_decided='state that is not in cpd or that uncrustify_end() does not own: container caches (sort_imports chunk_priority_cache / filename_without_ext_cache), Qt override state, cpd.last_char, '
+                            'and cpd.lang_flags under -l (the ObjC probe of parse_next assigns it and the forced-language path never restores it: read, not confirmed on the binary); '
+                            'state written by passes that are not encoded.'),
     'C10': dict(obligations=['IO-FUNNEL'], not_decided="main()'s argument dispatch, stdin delivery, observer options, environment/locale independence."),
     'C12': dict(obligations=['CHK-CMP', 'CHK-NOWRITE'], not_decided="main()'s exit status from check_fail_cnt and its rejection of --check with output options."),
     'C14': dict(obligations=['BK-STEP'], not_decided='real MD5 (abstract injective digest assumed); crash points inside the step (IO-ATOMIC covers target/backup, not the md5 record).'),
